@@ -122,6 +122,7 @@ def anchor_files(prop: str) -> set[str]:
 EXTRA_SCOPE = {
     "C02": ("pyoda_time/_local_date.py", "pyoda_time/calendars/_year_month_day_calculator.py"),
     "C06": ("pyoda_time/text/_offset_pattern_parser.py", "pyoda_time/time_zones/_fixed_date_time_zone.py"),
+    "C12": ("pyoda_time/time_zones/cldr/_map_zone.py", "pyoda_time/time_zones/_fixed_date_time_zone.py", "pyoda_time/time_zones/_zone_interval.py"),
 }
 
 
